@@ -233,7 +233,7 @@ def render_scope(sc, ind):
     else:
         head = [pad + "%s %s {" % (k, sc.name)]
     out = head + render_body(sc, ind + 1) + [pad + "}"]
-    if k == "grouping":
+    if k == "grouping" and not getattr(sc, "unused", False):
         out.append(pad + "uses %s;" % sc.name)
     return out
 
@@ -1350,6 +1350,124 @@ def long_cases(rnd, tier):
     return out
 
 
+# ------------------------------------------------------------------ family "unused nested groupings"
+# The type statements of a grouping are resolved where the grouping is written, used or not: a faulty type reference
+# on a leaf of an UNUSED grouping nested in a container, list, rpc, input, output, notification, action or another
+# grouping has to be reported (error presence as the model gives it; and, on the implementation alone, an error
+# located inside the faulty leaf statement -- a second, used faulty leaf elsewhere must not hide it).
+
+LEAF_FAULTS = ["unknown-name", "unknown-prefix", "invisible", "fd-missing", "fd-range", "fd-other", "dup-enum",
+               "idref-nobase", "range-bad", "cyclic-typedef", "member"]
+
+
+def unused_grouping_variant(rnd, holder, fault, second):
+    m = Module("m0", False, "p", None)
+    other = Module("m1", False, "q", None)
+    m.imports.append(("o", "m1"))
+    d = Typedef("hidden", None)
+
+    def scope(parent, kind, nm):
+        c = Scope(kind, nm, m, parent)
+        parent.kids.append(c)
+        return c
+    side = scope(m.top, "container", "side")
+    d.scope = side
+    d.type = TRef("int8")
+    side.typedefs.append(d)
+    if holder in ("input", "output"):
+        par = scope(scope(m.top, "rpc", "r1"), holder, holder)
+    elif holder == "action-input":
+        par = scope(scope(scope(m.top, "container", "c0"), "action", "a1"), "input", "input")
+    elif holder == "grouping":
+        par = scope(m.top, "grouping", "outer")            # used
+    elif holder == "unused-grouping":
+        par = scope(m.top, "grouping", "outer")
+        par.unused = True
+    elif holder == "deep":
+        par = scope(scope(scope(m.top, "container", "c0"), "list", "l0"), "grouping", "g0")
+    else:
+        par = scope(m.top, holder, "h1")
+    ug = scope(par, "grouping", "ug")
+    ug.unused = True
+    if rnd.random() < 0.5:
+        ug = scope(ug, rnd.choice(["container", "list"]), "in1")     # the leaf sits deeper in the unused grouping
+
+    def faulty(fault):
+        if fault == "unknown-name":
+            return TRef(rnd.choice(["nosuch", "p:nosuch", "o:nosuch"]))
+        if fault == "unknown-prefix":
+            return TRef("zz:hidden")
+        if fault == "invisible":
+            return TRef("hidden")
+        if fault == "fd-missing":
+            return TRef("decimal64")
+        t = TRef("int8")
+        if fault == "fd-range":
+            t = TRef("decimal64")
+            t.fd = 0
+        elif fault == "fd-other":
+            t.fd = 3
+        elif fault == "dup-enum":
+            t = TRef("enumeration")
+            t.enums = ["e0", "e0"]
+        elif fault == "idref-nobase":
+            t = TRef("identityref")
+        elif fault == "range-bad":
+            t.range = "9..1"
+        elif fault == "cyclic-typedef":
+            c = Typedef("loop", ug)
+            c.type = TRef("loop")
+            ug.typedefs.append(c)
+            t = TRef("loop")
+        elif fault == "member":
+            t = TRef("union")
+            t.members = [TRef("string"), TRef("nosuch")]
+        return t
+    x = Leaf("faulty_leaf")
+    x.type = faulty(fault)
+    ug.leaves.append(x)
+    # the error of a reference to a typedef that is based on itself is located at the typedef
+    bad = [ug.typedefs[-1] if fault == "cyclic-typedef" else x]
+    if second:
+        y = Leaf("second_faulty")
+        y.type = TRef("nosuch2")
+        m.top.leaves.append(y)
+        bad.append(y)
+    ok = Leaf("ok_leaf")
+    ok.type = TRef("string")
+    m.top.leaves.append(ok)
+    return Schema([m, other] if rnd.random() < 0.5 else [other, m]), bad
+
+
+def leaf_lines(m, leaf):
+    lines = render_module(m).split("\n")
+    for i, l in enumerate(lines):
+        if l.strip().startswith("leaf %s {" % leaf.name):
+            return i + 1, i + len("\n".join(render_leaf(leaf, 0)).split("\n"))
+    raise AssertionError(leaf.name)
+
+
+def unused_grouping_cases(rnd, tier):
+    out = []
+    holders = ["container", "list", "notification", "input", "output", "action-input", "grouping", "unused-grouping",
+               "deep"]
+    combos = [(h, rnd.choice(LEAF_FAULTS), s_) for h in holders for s_ in (False, True)]
+    combos += [(rnd.choice(holders), f, rnd.random() < 0.5) for f in LEAF_FAULTS]
+    if tier != "quick":
+        combos += [(h, f, s_) for h in holders for f in LEAF_FAULTS for s_ in (False, True)]
+    for h, f, second in combos:
+        S, bad = unused_grouping_variant(rnd, h, f, second)
+        go, ml, texts = lines_of(S)
+        m = [x for x in S.mods if x.name == "m0"][0]
+        tl = typedef_lines(m)
+        if any(isinstance(x, Typedef) for x in bad):
+            # Process stops after the typedef sweep when that reports errors: leaf errors are not due then
+            bad = [x for x in bad if isinstance(x, Typedef)]
+        pos = [["m0.yang"] + list(tl[id(x)] if isinstance(x, Typedef) else leaf_lines(m, x)) for x in bad]
+        out.append(("unused-grouping:%s" % h, True, go, ml, texts, 0, {"__errpos__": pos}))
+    return out
+
+
 # ------------------------------------------------------------------ family "unused typedefs under same-named scopes"
 # resolveTypedefs is the only place where a typedef that nothing uses gets resolved: every one of them has to be
 # swept.  Two scopes with the same path of names (a grouping and a container / list / rpc / notification of one name,
@@ -1490,7 +1608,7 @@ def check_errpos(goline, exp):
             got.append((f[0], int(f[1])))
     for fn, a, b in exp["__errpos__"]:
         if not any(g_[0] == fn and a <= g_[1] <= b for g_ in got):
-            return "no error is reported for the typedef at %s:%d-%d (errors: %s)" % (fn, a, b, run["errors"][:4])
+            return "no error is reported for the faulty statement at %s:%d-%d (errors: %s)" % (fn, a, b, run["errors"][:4])
     return None
 
 
@@ -1670,6 +1788,9 @@ def build_cases(tier, seed):
     lc = long_cases(rnd, tier)
     cases += lc
     hist["long-chains"] = len(lc)
+    uc = unused_grouping_cases(rnd, tier)
+    cases += uc
+    hist["unused-groupings"] = len(uc)
     tc = twin_cases(rnd, tier)
     cases += tc
     hist["twins:runs"] = len(tc)
@@ -1710,7 +1831,7 @@ def run(res, tier, seed, proof):
             if why is None and not g.startswith(("PANIC", "CRASH", "NOT-RUN")):
                 w2 = check_errpos(g, exp)
                 if w2 is not None:
-                    why, o = "unused typedef not swept: " + w2, "twins-oracle"
+                    why, o = "error position oracle: " + w2, "errpos-oracle"
         elif exp is not None:
             # oracle on the implementation alone (not model-backed): the binding is known by construction
             w2 = check_expect(g, exp) if not g.startswith(("PANIC", "CRASH", "NOT-RUN")) else "implementation: " + g[:100]
